@@ -75,6 +75,9 @@ func rgbaOf(u uint32) color.RGBA {
 // c09Batch writes the colours with SetCReg, decodes and compares.
 func c09Batch(c *run.Ctx, cols []ivg.Color, what string) {
 	var e encode.Encoder
+	if len(cols)%2 == 1 {
+		dirtyDestination(run.NewRng(uint64(len(cols))), &e, ivg.DefaultPalette)
+	}
 	e.Reset(ivg.DefaultViewBox, ivg.DefaultPalette)
 	adjs := make([]uint8, len(cols))
 	incrs := make([]bool, len(cols))
@@ -408,6 +411,12 @@ func c09Palette(c *run.Ctx, idx uint64) {
 		// the palette chunk follows a viewBox chunk
 		vb = ivg.ViewBox{MinX: 0, MinY: 0, MaxX: 48, MaxY: float32(24 + idx%100)}
 		c.Count("palette_after_viewbox_chunk", 1)
+	}
+	if idx%3 == 0 {
+		// the Encoder has encoded another graphic (another viewBox, another palette) before
+		past := gen.Palette(c.Rng(idx ^ 0x9a57))
+		dirtyDestination(c.Rng(idx^0x9a58), &e, past)
+		c.Count("encoder_with_a_past", 1)
 	}
 	if !c.Guard("encode", func() interface{} { return fmt.Sprint(pal) }, func() {
 		e.Reset(vb, pal)
